@@ -64,8 +64,8 @@ def check_L(S, p):
             shape = rng.sample(range(2, 8), d)
         if i % 6 == 4:
             # spectra with thousands of entries (counts not divisible by the usual block sizes): dozens of samples per population
-            shape = {1: [rng.choice([4097, 5000, 8193])], 2: rng.choice([[70, 71], [65, 130], [33, 257], [300, 17]]),
-                     3: rng.choice([[17, 17, 17], [18, 17, 19], [9, 33, 21]]), 4: rng.choice([[9, 8, 9, 8], [5, 11, 7, 13], [17, 4, 5, 16]])}[d]
+            shape = {1: [rng.choice([4097, 5000, 8193])], 2: rng.choice([[70, 71], [65, 130], [33, 257], [300, 17], [129, 131], [150, 160], [3, 6001], [6001, 3]]),
+                     3: rng.choice([[17, 17, 17], [18, 17, 19], [9, 33, 21], [3, 81, 83]]), 4: rng.choice([[9, 8, 9, 8], [5, 11, 7, 13], [17, 4, 5, 16], [3, 19, 19, 21]])}[d]
             S.count("large_spectra")
         n = O.prod(shape)
         data = [rng.uniform(0.01, 100) for _ in range(n)]
